@@ -195,6 +195,10 @@ def correspond(ctx):
                                                   'eigenvectors of the block (|Q S Q^T - A| = %.2e, |Q^T Q - I| = %.2e, eigenvalue error %.2e; %s implementation)' % (k, e1, e2, e3, name),
                                                   {'dims': d, 'mnl': mnl, 'order': k})
                         o += k * k; os_ += k
+                    if not want_sigma and list(X) != list(xr):
+                        # without sigma the decomposition was not asked for: x is an input only
+                        ctx.violation('c08:max-step-modifies-x:' + name, "max_step(x, dims) without sigma changed its argument x (entries %s; %s implementation)"
+                                      % ([i for i in range(N) if X[i] != xr[i]][:8], name), {'dims': d, 'mnl': mnl})
                     if margins and abs(t + min(margins)) > 1e-8 * (1 + abs(t)):
                         ctx.violation('c08:max-step:' + name, "x + max_step(x) e is not on the boundary of the cone with 's' blocks (t = %r, expected %r; sigma %s; %s implementation)"
                                       % (t, -min(margins), 'given' if want_sigma else 'omitted', name), {'dims': d, 'mnl': mnl})
